@@ -20,7 +20,10 @@ def reduce_requirements(
         lambda: None
     )
     for req in raw_reqs:
-        reqs[req.project_name] = merge_requirements(reqs[req.project_name], req)
+        # Key on the normalized name so that "Foo", "foo" and "f.o.o" style spellings
+        # of one project are reduced together, whatever order they are listed in.
+        key = normalize_project_name(req.project_name)
+        reqs[key] = merge_requirements(reqs[key], req)
 
     return list(req for req in reqs.values() if req is not None)
 
